@@ -186,9 +186,10 @@ def c01_sign_run_folded(w, v):
     assigns.  Only spellings that contain such a run are accepted."""
     kind = v['sig'].split(':')[0]
     if kind not in ('text', 'value', 'spellings-disagree', 'to_dict', 'name',
-                    'reparse', 'roundtrip'):
+                    'reparse-differs', 'reparse-value', 'reparse-raised'):
         return False
-    return bool(w.get('sign_run')) and _has_sign_run(w.get('spelling'))
+    return bool(w.get('sign_run')) and (
+        _has_sign_run(w.get('spelling')) or _has_sign_run(w.get('exported')))
 
 
 @matcher('c01_double_percent_rejected')
@@ -197,9 +198,11 @@ def c01_double_percent_rejected(w, v):
     run `%%` as one token that is not an operator."""
     import re
     if not (v['sig'].startswith('rejected-valid:FormulaError') or
-            v['sig'].startswith('to_dict:raised:FormulaError')):
+            v['sig'].startswith('to_dict:raised:FormulaError') or
+            v['sig'].startswith('reparse-raised:FormulaError')):
         return False
-    texts = [w.get('spelling') or '']
+    texts = [w.get('spelling') or '', w.get('exported') or '']
+    texts += [a for a in (w.get('accepted') or []) if isinstance(a, str)]
     cells = (w.get('case') or {}).get('cells') or {}
     texts += [x for x in cells.values() if isinstance(x, str)]
     obs = w.get('observed') or ''
@@ -272,3 +275,37 @@ def c05_equal_size_reshaped(w, v):
         return repr(float(x))
     want = '{' + ';'.join(','.join(show(x) for x in row) for row in rows) + '}'
     return w.get('observed') == want
+
+
+@matcher('c09_sheet_apostrophe_in_ids')
+def c09_sheet_apostrophe_in_ids(w, v):
+    """Node ids of cells on a sheet whose name holds an apostrophe are written
+    without re-doubling it, so the exported dictionary cannot be imported
+    (same mechanism as C04-sheet-name-not-requoted)."""
+    if v['sig'].startswith('reparse-raised:'):
+        sheets = (w.get('case') or {}).get('sheets') or []
+        text = w.get('spelling') or ''
+        return any("'" in s and ("]%s'!" % s.upper()) in text for s in sheets)
+    if not v['sig'].startswith('import-raised:'):
+        return False
+    suspect = w.get('suspect') or {}
+    for k in suspect:
+        sheet = k.rsplit('!', 1)[0]
+        inner = sheet[1:-1] if sheet.startswith("'") else sheet
+        if "'" in inner.replace("''", ''):
+            return True
+    return False
+
+
+@matcher('c09_empty_marker_appears')
+def c09_empty_marker_appears(w, v):
+    """The second export lists an unpopulated cell as "#EMPTY" that the first
+    export did not list: whether a blank cell of a referenced range becomes an
+    explicit node depends on how many cells of that range are missing when the
+    range is assembled, and the re-imported dictionary changes that count.
+    Values are unaffected and the export is stable from the second one on."""
+    if not v['sig'].startswith('export-drifts:'):
+        return False
+    diffs = w.get('all_differences') or []
+    return bool(diffs) and len(diffs) == w.get('n_keys') and all(
+        a == '"<absent>"' and b == '"#EMPTY"' for _k, a, b in diffs)
